@@ -122,6 +122,8 @@ bool ops_core(World &w, const Op &o) {
     if (!A.ok) viol(w, own, "wf.links", "after restrict: %s", A.broken.c_str());
     oracle_restrict(w, ri, B, A, S, fl, rc, e);
     if (rc == 0) models_after_restrict(w, ri, B, A);
+    // known finding: a level merged by this restrict on a topology whose objects' complete_cpuset starts below their cpuset (offline CPUs)
+    if (rc == 0 && A.depth < B.depth) for (auto &kv : B.objs) if (kv.second.hassets && !kv.second.cs.empty() && kv.second.ccs.first() < kv.second.cs.first()) { w.hint["wf.hwloc_check:hwloc__check_children_cpusets"] = "merged_level_with_offline_cpus"; break; }
     return true;
   }
   if (k == "insert_misc") {
@@ -163,6 +165,8 @@ bool ops_core(World &w, const Op &o) {
       if (A.text() != B.text()) viol0(w, own, "group.refused_modified", "insert_group_object returned NULL but the topology changed");
     } else {
       r.count(res == g ? "probe.group_inserted" : "probe.group_merged_into_existing");
+      // known finding: a Group described by a complete_cpuset that covers no object of the topology is inserted childless, without cpuset
+      if (res == g && !res->first_child && !res->cpuset) w.hint["wf.set_inclusion"] = "childless_group_from_complete_cpuset";
       // the returned object is in the tree
       bool found = false; Dump A; take_dump(t, A, DUMP_TREE); for (auto &kv : A.objs) if (kv.second.ptr == res) found = true;
       if (!found) viol0(w, own, "group.result_not_in_tree", "insert_group_object returned an object that is not in the topology");
